@@ -431,7 +431,8 @@ def g_new_mole(rng, cfg):
         basis[s] = shells
     n = rng.randint(1, 4)
     atoms = [[rng.choice(syms), _xyz(rng, cfg["coord_scale"])] for _ in range(n)]
-    return {"op": "new_mole", "cart": rng.random() < 0.5, "atoms": atoms, "basis": basis}
+    return {"op": "new_mole", "cart": rng.random() < 0.5, "atoms": atoms, "basis": basis,
+            "coord_form": rng.choice(["list", "list", "tuple", "array"])}
 
 
 def g_from_pyscf(rng, cfg, keep=None):
